@@ -13,7 +13,7 @@ from checks import common
 PROPERTY = "C05"
 LEVEL = "model_checking"
 OPTIONS = {
-    "quick": {"max_paths": 100000, "unit_budget_s": 1500},
+    "quick": {"max_paths": 100000, "unit_budget_s": 600},
     "thorough": {"max_paths": 1500000, "unit_budget_s": 3300},
 }
 BOUNDS = {
